@@ -22,6 +22,17 @@ Theorem key_determines_plan_when_plan_factors : forall (planf : Key -> Plan),
   (forall op, plan_of op = planf (key op)) -> forall ops, key_determines_plan Op Plan Key key plan_of ops.
 Proof. intros planf H ops a b _ _ E. now rewrite !H, E. Qed.
 
+(* ... and the proviso is NECESSARY: whenever two operations share a key while their plans answer the second one
+   differently, the two-request history a; b (any TTL, same instant) is answered differently by the caching planner.
+   So "the cache never changes an answer" holds exactly when the key determines the plan — every key that forgets
+   something the plan depends on (operation type: 36697ed; the content of list / input-object literals: seed C14e)
+   is observable, and the correspondence check looks for exactly such pairs. *)
+Theorem key_collision_is_observable : forall ttl t a b,
+  key a = key b -> run (plan_of a) b <> run (plan_of b) b ->
+  run_cached Op Plan Key Resp key key_eqb plan_of run ttl [(a, t); (b, t)] []
+  <> run_plain Op Plan Resp plan_of run [(a, t); (b, t)].
+Proof. exact (colliding_keys_change_an_answer Op Plan Key Resp key key_eqb plan_of run key_eqb_ok). Qed.
+
 (* concurrent misses for one operation store the same plan *)
 Theorem concurrent_misses_are_harmless : forall (e : entry Plan Key) c,
   store Plan Key key_eqb e (store Plan Key key_eqb e c) = store Plan Key key_eqb e c.
@@ -49,7 +60,14 @@ Theorem pinned_subscription_aliasing_refuted :
   <> [strip_kn (Q, 7); (Q, 7)].
 Proof. vm_compute. discriminate. Qed.
 
+(* (3) the class of seed C14e: a key that forgets the literal inside an argument. Operations = (selection, literal). *)
+Example literal_forgetting_key_refuted :
+  run_cached (nat * nat) (nat * nat) nat (nat * nat) fst Nat.eqb (fun op => op) (fun p _ => p) 1000 [((3, 1), 0); ((3, 2), 0)] []
+  <> run_plain (nat * nat) (nat * nat) (nat * nat) (fun op => op) (fun p _ => p) [((3, 1), 0); ((3, 2), 0)].
+Proof. apply (key_collision_is_observable (nat * nat) (nat * nat) nat (nat * nat) fst Nat.eqb (fun op => op) (fun p _ => p) Nat.eqb_eq); [reflexivity|discriminate]. Qed.
+
 Print Assumptions cache_never_changes_an_answer.
+Print Assumptions key_collision_is_observable.
 Print Assumptions key_determines_plan_when_plan_factors.
 Print Assumptions concurrent_misses_are_harmless.
 Print Assumptions pinned_key_refuted.
